@@ -20,7 +20,8 @@ PARTIAL = ["the graph-theoretic core of skeleton exactness is proved for every D
            "sequential variants, against the enumerated Markov class of the Lean spec"]
 RULE = ("ground truth = every labelled DAG on 2-4 nodes (all 5-node DAGs in thorough, random 6-node DAGs) x variants orig/stable (parallel "
         "sampled) with a d-separation oracle and with the full independence list; PDAG.to_dag on the CPDAG of every such DAG and on random "
-        "extendable PDAGs; 6 hash seeds; non-trivial = ground truth has a v-structure or a compelled edge; distinct = case JSON")
+        "extendable PDAGs; 6 hash seeds; non-trivial = ground truth has a v-structure or a compelled edge; distinct = case JSON"
+        " Also: integer variable names incl. 0 (callable oracle, to_dag), direct skeleton_to_pdag, independence lists filled in two stages, PDAG reused after to_dag.")
 ASSUMPTIONS = ["max_cond_vars >= number of nodes (>= max degree)"]
 BUDGET_QUICK = 120
 LEVEL_TEXT = ("Kernel-checked on the specification side: a graph accepted by the model's extension predicate is acyclic, has the PDAG's "
